@@ -10,7 +10,7 @@ import ast
 
 from ..engine import rule
 from ..model import Undecided
-from ..cfg import dotted, call_name, is_call, simple_name, unparse, const_value, contains, enclosing, find_all
+from ..cfg import same, dotted, call_name, is_call, simple_name, unparse, const_value, contains, enclosing, find_all
 from ..flow import Canon, expand, Defs, depends, try_const
 from ..decide import table, ret_kind
 from ..util import calls_to, keyword, returns_of, calls_in, inside, order_key
@@ -335,11 +335,11 @@ def c06d(ctx):
     # V1 read_tile: size <= 0 -> False before read(size)
     fn = ctx.fn(COMPACT + ':BundleDataV1.read_tile')
     g = fn.cfg
-    reads = g.find(lambda x: is_call(x, 'read') and x.args and unparse(x.args[0]) == 'size')
+    reads = g.find(lambda x: is_call(x, 'read') and x.args and same(x.args[0], 'size'))
     for n, c in reads:
-        ok = g.guarded(n, lambda at: at.op == '<' and unparse(at.left) == '0' and unparse(at.right) == 'size', True) or \
+        ok = g.guarded(n, lambda at: at.op == '<' and same(at.left, '0') and same(at.right, 'size'), True) or \
             g.guarded(n, lambda at: at.op == '==' and zero_atom('size')(at), False) or \
-            g.guarded(n, lambda at: at.op is None and unparse(at.expr) == 'size', True)
+            g.guarded(n, lambda at: at.op is None and same(at.expr, 'size'), True)
         ctx.check(ok, 'BundleDataV1.read_tile:size-guarded', 'record bytes are only read for a positive size word', fn, c)
     if not reads:
         ctx.bad('BundleDataV1.read_tile:size-guarded', 'no read(size) found', fn)
